@@ -59,7 +59,8 @@ Definition d_env (vt qt qs : list val) (hs : bool) : env :=
   {| nv_vf := fun k a => lookup_v vt (e_cbk k) a;
      nv_queued := fun _ => lookup_v qt 9 [];      (* the harness keys handle_queued by nothing *)
      nv_qf := lookup_q qs;
-     nv_hs := hs |}.
+     nv_hs := hs;
+     nv_stls := lookup_v vt 10 [] |}.
 
 Definition e_tevent (e : tevent) : val :=
   match e with
